@@ -392,6 +392,11 @@ func makeFlag(m parse.RedirMode) int {
 	}
 }
 
+// The largest file descriptor that can be the destination of a redirection.
+// The port table is a slice indexed by file descriptor, so the destination
+// has to be bounded to keep the table's size reasonable.
+const maxRedirFD = 1<<16 - 1
+
 type InvalidFD struct{ FD int }
 
 func (err InvalidFD) Error() string { return fmt.Sprintf("invalid fd: %d", err.FD) }
@@ -415,7 +420,7 @@ func (op *redirOp) exec(fm *Frame, fops *[]formOwnedPort) Exception {
 		if err != nil {
 			return fm.errorp(op, err)
 		}
-		if dst < 0 {
+		if dst < 0 || dst > maxRedirFD {
 			return fm.errorp(op, InvalidFD{FD: dst})
 		}
 	}
